@@ -157,23 +157,3 @@ Proof.
       rewrite sdrop_app. now rewrite <- pywords_sep_app.
 Qed.
 
-(* the hypothesis: the first line (with its newline, two after a colon) fits in width - offset *)
-Definition first_line_fits (text : string) (width offset : nat) : bool :=
-  String.length (first0_of (repl_nlsp text)) <=? width - offset.
-
-Theorem wrap_words_preserved_fit text width offset indent out :
-  first_line_fits text width offset = true ->
-  wrap text width offset indent = Ok out -> pywords out = pywords text.
-Proof.
-  intros Hfit H. destruct (string_dec text ""%string) as [->|Hne]; [cbn in H; inversion H; reflexivity|].
-  destruct (wrap_words_preserved_partial text width offset indent out Hne H) as (first & text2 & Eh & Ew).
-  unfold wrap_head in Eh. unfold first_line_fits in Hfit. apply Nat.leb_le in Hfit.
-  replace (width - offset <? String.length (first0_of (repl_nlsp text))) with false in Eh by (symmetry; apply Nat.ltb_ge; exact Hfit).
-  inversion Eh; subst first text2. rewrite Ew, fit_slice_words.
-  apply weq_pywords, repl_nlsp_weq.
-Qed.
-
-Example first_line_fits_example :
-  first_line_fits "Fetches a thing. Note:
- the caller should then create it, and this second line is long enough to be re-flowed." 72 11 = true.
-Proof. reflexivity. Qed.
